@@ -32,7 +32,7 @@ pub static DEF: PropDef = PropDef {
 fn cases(t: Tier) -> u64 {
   match t {
     Tier::Quick => 1_600,
-    Tier::Thorough => 200_000,
+    Tier::Thorough => 12_000,
   }
 }
 
